@@ -11,6 +11,7 @@ import (
 	"sync"
 	"math/rand"
 	"testing"
+	"time"
 
 	"filippo.io/edwards25519"
 )
@@ -454,31 +455,44 @@ func TestVerifDriver(t *testing.T) {
 	runPar := func(ins []M) {
 		// the same scenarios verified by 8 goroutines at once: every verdict must be the one the specification gives
 		type res struct{ in, out, facts M }
-		results := make([]res, len(ins))
+		results := make([][]res, len(ins)) // the answers seen for input i (index i belongs to goroutine i%8)
 		var wg sync.WaitGroup
+		budget := time.Duration(vEnvInt("VERIF_PAR_MS", 1200)) * time.Millisecond
+		start := make(chan struct{})
+		t0 := time.Now()
 		for g := 0; g < 8; g++ {
 			wg.Add(1)
 			go func(g int) {
 				defer wg.Done()
-				for rep := 0; rep < 3; rep++ {
+				<-start
+				for rep := 0; rep < 3 || time.Since(t0) < budget; rep++ {
 					for i := g; i < len(ins); i += 8 {
 						in := vNorm(ins[i])
 						in["par"] = true
 						o, f := runVerify(in)
-						if rep == 0 || o["ok"] != results[i].out["ok"] {
-							results[i] = res{in, o, f}
+						fresh := true
+						for _, x := range results[i] {
+							if x.out["ok"] == o["ok"] {
+								fresh = false
+							}
+						}
+						if fresh { // every distinct verdict is kept and judged: a disturbed call cannot be overwritten
+							results[i] = append(results[i], res{in, o, f})
 						}
 					}
 				}
 			}(g)
 		}
+		close(start)
 		wg.Wait()
-		for _, x := range results {
-			rec.i++
-			rec.count++
-			b, _ := json.Marshal(map[string]interface{}{"t": rec.t, "i": rec.i, "op": "ed.Verify", "in": vNorm(x.in), "out": x.out, "facts": x.facts})
-			rec.w.Write(b)
-			rec.w.WriteByte('\n')
+		for _, xs := range results {
+			for _, x := range xs {
+				rec.i++
+				rec.count++
+				b, _ := json.Marshal(map[string]interface{}{"t": rec.t, "i": rec.i, "op": "ed.Verify", "in": vNorm(x.in), "out": x.out, "facts": x.facts})
+				rec.w.Write(b)
+				rec.w.WriteByte('\n')
+			}
 		}
 	}
 	if vMode() == "replay" {
